@@ -151,7 +151,10 @@ theorem pr_closeTransportF {w0 w : World} (f : Nat) (sid : Nat) (d : Bool) (h : 
   | zero => simpa [closeTransportF] using h
   | succ f =>
     rw [closeTransportF]
-    apply pr_trClose
-    split <;> pr_prim
+    try dsimp only
+    repeat' split
+    all_goals first
+      | (apply pr_sockOnClose; pr_prim)
+      | (apply pr_trClose; pr_prim)
 
 end EIO.Ses
